@@ -15,6 +15,8 @@ R15.6  a plain value emitted as whole line(s) (write_line / write_block of a loc
        bypassed every sanitizer on some way into it
 R15.7  the line scanners that cut Protocol stubs / mock methods out of a rendered method end at the implementation signature: no docstring
        line (spec text) is ever tested for looking like code
+R15.9  the member an enum-typed field default refers to is picked by value from the member list the enum generator emits (names are de-duplicated there:
+       a name recomputed from the default's text selects another member for every value after the first of a collision group)
 R15.8  the funnel every emitted line goes through (CodeWriter.write_line -> LineWriter.append) hands the text on unchanged: literals that carry
        meaning (enum values, wire keys, header names) are part of those lines - a character filter applied there rewrites them too
 R15.5  json.dumps() used as a Python-literal maker for spec text passes ensure_ascii=False (non-BMP characters survive)
@@ -793,6 +795,8 @@ def run(repo: Repo, rep: Report, tier: str) -> None:
     rep.count("R15.5:json_dumps_of_spec_text", n_dumps)
     rep.require(n_dumps >= 6, f"R15.5: only {n_dumps} json.dumps(<spec text>) literal makers found (floor 6)")
 
+    # ---------------------------------------------------------------- R15.9 an enum default names the member that has the default's value
+    rule_enum_default_by_value(repo, rep, "R15.9")
     # ---------------------------------------------------------------- R15.8 the line funnel is the identity
     rule_writer_funnel_is_identity(repo, rep, "R15.8")
     # ---------------------------------------------------------------- R15.3 re-splitting of emitted code
@@ -1145,3 +1149,44 @@ def rule_writer_funnel_is_identity(repo: Repo, rep, rule: str = "R15.8") -> None
                           "name that contains such a character no longer evaluates to the document's string (the file still parses, nothing is reported)", fn.loc(rewrites[0]))
         else:
             rep.ok(rule, sub, "the text is stored / passed on as it was handed in", fn.loc())
+
+
+# ------------------------------------------------------------------------------------------------ R15.9 enum defaults are resolved by value
+def rule_enum_default_by_value(repo: Repo, rep, rule: str = "R15.9") -> None:
+    """`EnumGenerator.generate` renames colliding members (`<`, `=` -> MEMBER_..., MEMBER_..._1; `DESC`, `desc` -> DESC, DESC_1).  A field default is
+    emitted as `<Enum>.<MEMBER>`: if the member name is computed from the *text of the default* (free spec text) by the naming function alone, it is
+    the first member of the collision group for every value of the group - `default: "="` evaluates to `"<"`.  Decided: in
+    `DataclassGenerator._get_field_default` the name part of `f"{enum}.{member}"` is bound by iterating the generator's member list (or no
+    member name is emitted at all, e.g. `Enum(value)`), never assigned from a `_generate_member_name_*` call."""
+    dg = repo.module("visit.model.dataclass_generator")
+    fn = dg.classes["DataclassGenerator"].methods.get("_get_field_default") if "DataclassGenerator" in dg.classes else None
+    if fn is None:
+        raise AnalysisError(f"{rule}: anchor vanished: DataclassGenerator._get_field_default")
+    L = Locals(fn.node)
+    n = 0
+    for r in own_nodes(fn.node):
+        if not (isinstance(r, ast.Return) and isinstance(r.value, ast.JoinedStr)):
+            continue
+        parts = r.value.values
+        txt = "".join(v.value if isinstance(v, ast.Constant) else "{}" for v in parts)
+        if txt != "{}.{}":
+            continue
+        holes = [v.value for v in parts if isinstance(v, ast.FormattedValue)]
+        member = holes[1]
+        n += 1
+        sub = f"{dg.relpath}:_get_field_default `{norm(r.value)[:50]}`"
+        bad = None
+        if isinstance(member, ast.Name):
+            for kind, v, _ in L.defs.get(member.id, []):
+                if kind == "assign" and v is not None and any(isinstance(c, ast.Call) and isinstance(c.func, ast.Attribute) and c.func.attr.startswith("_generate_member_name") for c in ast.walk(v)):
+                    bad = v
+        elif any(isinstance(c, ast.Call) and isinstance(c.func, ast.Attribute) and c.func.attr.startswith("_generate_member_name") for c in ast.walk(member)):
+            bad = member
+        if bad is not None:
+            rep.violation(rule, sub, f"{fn.fq}|enum-default-member-recomputed",
+                          f"`{norm(bad)[:70]}`: the member name is recomputed from the text of the default, without the de-duplication `EnumGenerator.generate` applies - for enum values "
+                          "whose names collide (`<` / `=`, `DESC` / `desc`, `m/s` / `ms`) the emitted default is another member than the document states", fn.loc(r))
+        else:
+            rep.ok(rule, sub, "the member is taken from the enum generator's own member list, by value", fn.loc(r))
+    if n == 0:
+        rep.ok(rule, f"{dg.relpath}:_get_field_default enum defaults", "no `<Enum>.<MEMBER>` default is emitted (defaults are not resolved to member names)", fn.loc())
